@@ -87,6 +87,15 @@ N = {
  "sc3-C16-m2": ("closeInFlight halves swapped + cancel hand-off without the exiting escape", "ctx-carrying reverse call pending when the connection is lost", ""),
  "sc3-C18-m1": ("handleResponse drops inflightLk before registering the sink", "close coinciding with the handling of a channel-id response", ""),
  "sc3-C18-m2": ("writeLk not released on the fail-fast branch", "connection cut, a call in the reconnect window, then close", ""),
+ "sd4-C04-m1": ("retry tag read with Tag.Lookup: retry:\"false\" turns retrying on", "a field tagged retry:\"false\", connection cut after the request was written, reconnect", "needed a retry:\"false\" proxy method in the fault family"),
+ "sd4-C04-m2": ("'carry unwritten requests over a reconnect' feature marks every in-flight request unwritten", "connection cut between request write and response, reconnect", ""),
+ "sd4-C10-m1": ("cancelCtx returns without unlocking handlingLk when the id is not being handled", "an xrpc.cancel for a finished or unknown call, then any call with an id on that connection", ""),
+ "sd4-C13-m1": ("tracer call merged and moved: indexes the nil result slice after a panic", "server built WithTracer + panicking method with an error result", "needed a tracer on some C13 servers"),
+ "sd4-C13-m2": ("panic log formats all params with %+v, including the shared handler receiver", "a healthy call writing a map of the handler object truly in parallel with another call's panic", "NOT caught: needs two goroutines inside one statement's runtime at the same time (a Go memory-model race detected by the runtime's map checks); the step scheduler runs one goroutine at a time"),
+ "sd4-C17-m1": ("resetReadDeadline moved to the callers of nextMessage, forgotten in tryReconnect", "reconnect, black hole before any frame arrives on the new link, client keeps sending", "needed the 'black hole right after a reconnect' variant in C17"),
+ "sd4-C17-m2": ("final response written with w() instead of withLazyWriter: encoding under writeLk", "a result whose encoding takes longer than the client timeout, server pings on", "needed slow-to-encode results in C17"),
+ "sd4-C20-m1": ("parameter encoding moved into the retry loop: the reader param is uploaded again", "retry-tagged reader call issued while the connection is down", "needed a retry-outage family in C20"),
+ "sd4-C20-m2": ("server defaults hoisted into a package variable: all servers share one paramDecoders map", ">= 2 reader-enabled servers in one process", "needed a second reader-enabled server in C20"),
 }
 
 
